@@ -1,10 +1,16 @@
 package e2
 
 import (
+	"crypto/sha256"
 	"fmt"
+	"os"
+	"path/filepath"
 	"strings"
 	"testing"
+	"testing/synctest"
 	"time"
+
+	"github.com/vx-labs/wasp/v4/wasp/auth"
 
 	"verif/internal/vk"
 )
@@ -583,5 +589,131 @@ func TestC12Seams(t *testing.T) {
 		func(rep *vk.Report) {
 			rep.Rule = "paths = new connection on node {1,2} x seam {after the manager looked the old record up, after it removed it, after it created the new one} x what the previous connection does at that very point {DISCONNECT, drop, PINGREQ, nothing}; the manager's goroutine is held at the seam while the other connection is served; the new connection must be accepted and served, the identifier must resolve to it alone on both nodes, the old session's subscriptions must be gone"
 			rep.Floor("paths", 20, rep.Nontrivial)
+		})
+}
+
+// TestC12RealIdentifiers: the takeover with the session identifiers the broker's own authentication handlers hand out
+// (the other phases use a handler of the harness that numbers sessions). Two, then three connections with one client
+// identifier reach the broker in the same instant of virtual time (no time passes between them: same nanosecond, let
+// alone millisecond), 1 ms or 1 s apart; on one node or two. Afterwards exactly one session is live for the client
+// identifier: every earlier connection is ended at its next keep-alive exchange, the last one is answered.
+func TestC12RealIdentifiers(t *testing.T) {
+	type ip struct {
+		Handler   string `json:"authentication_handler"`
+		Nodes     int    `json:"nodes"`
+		GapUs     int    `json:"microseconds_between_connections"`
+		Connects  int    `json:"connections"`
+		SecondOn2 bool   `json:"second_connection_on_node_2"`
+	}
+	var paths []ip
+	for _, h := range []string{"none", "static", "file"} {
+		for _, gap := range []int{0, 1000, 1000000} {
+			for _, n := range []int{2, 3} {
+				paths = append(paths, ip{h, 1, gap, n, false})
+			}
+			paths = append(paths, ip{h, 2, gap, 2, true})
+		}
+	}
+	RunPaths(t, "C12", "C12/real-session-identifiers", "TestC12RealIdentifiers", len(paths), vk.Pick(4*time.Minute, 10*time.Minute),
+		func(t *testing.T, i int, rep *vk.Report) {
+			p := paths[i]
+			var h auth.AuthenticationHandler
+			var err error
+			user, pass := "", ""
+			switch p.Handler {
+			case "none":
+				h = auth.NoopHandler()
+			case "static":
+				h, err = auth.StaticHandler("alice", "pw-alice")
+				user, pass = "alice", "pw-alice"
+			case "file":
+				file := filepath.Join(os.Getenv("VERIF_SCRATCH"), fmt.Sprintf("c12-creds-%d-%d.csv", os.Getpid(), i))
+				os.WriteFile(file, []byte(fmt.Sprintf("alice:%x:tenant-a\n", sha256.Sum256([]byte("pw-alice")))), 0o600)
+				defer os.Remove(file)
+				h, err = auth.FileHandler(file)
+				user, pass = "alice", "pw-alice"
+			}
+			if err != nil {
+				rep.HarnessError("handler: %v", err)
+				return
+			}
+			AuthOverride = h
+			defer func() { AuthOverride = nil }()
+			RunBubble(t, fmt.Sprintf("p%d", i), func(t *testing.T) {
+				w := NewWorld(t, p.Nodes)
+				defer w.Close()
+				viol := func(sig, format string, a ...any) {
+					rep.Violate(vk.Violation{Sig: sig, Msg: fmt.Sprintf("%+v: ", p) + fmt.Sprintf(format, a...), Replay: p})
+				}
+				var cs []*Client
+				for k := 0; k < p.Connects; k++ {
+					node := 1
+					if p.SecondOn2 && k == 1 {
+						node = 2
+					}
+					c := w.NewClient(fmt.Sprintf("c%d", k+1), node, AckAll)
+					if rc := c.Connect(ConnectOpts{ClientID: "X", KeepAlive: 600, User: user, Password: pass}); rc != 0 {
+						viol("c12-new-session-refused", "connection %d with the same client identifier got CONNACK %d", k+1, rc)
+						return
+					}
+					cs = append(cs, c)
+					if p.GapUs > 0 {
+						synctest.Wait()
+						time.Sleep(time.Duration(p.GapUs) * time.Microsecond)
+					}
+					if p.Nodes == 2 {
+						synctest.Wait()
+						w.PumpGossip() // the proviso of C12: the earlier record is known where the next connection arrives
+					}
+				}
+				w.Step()
+				// the session records: distinct identifiers were handed out, one record is left
+				ids := map[string]bool{}
+				var listed []string
+				for _, m := range w.Node(1).DState.SessionMetadatas().All() {
+					if m.ClientID == "X" {
+						listed = append(listed, m.SessionID)
+						ids[m.SessionID] = true
+					}
+				}
+				for _, c := range cs {
+					c.Ping()
+				}
+				w.Step()
+				w.Idle(2 * time.Second)
+				for k, c := range cs {
+					last := k == len(cs)-1
+					answered := c.Count("PINGRESP") > 0
+					if last && (c.BrokerClosed() || !answered) {
+						viol("c12-newest-session-ended", "the newest connection (%d of %d) was closed or not answered at its keep-alive exchange (closed=%v)", k+1, len(cs), c.BrokerClosed())
+						return
+					}
+					if !last && !c.BrokerClosed() {
+						viol("c12-two-live-sessions", "connection %d of %d with client identifier X is still served after its keep-alive exchange (PINGRESP=%v) although a newer connection took the identifier; session records for X: %v", k+1, len(cs), answered, listed)
+						return
+					}
+				}
+				live := 0
+				for _, n := range w.Nodes {
+					for _, s := range n.Local.ListSessions() {
+						if s.ClientID() == "X" {
+							live++
+						}
+					}
+				}
+				if live != 1 {
+					viol("c12-live-session-count", "%d sessions with client identifier X are registered on the nodes, expected 1", live)
+					return
+				}
+				Observe(w, rep)
+				MarkNontrivial(fmt.Sprint(p))
+				rep.Nontrivial++
+				rep.Sample(p)
+			})
+		},
+		func(i int) any { return paths[i] },
+		func(rep *vk.Report) {
+			rep.Rule = "2-3 connections with one client identifier, authenticated by the broker's own handlers (none / static / file: they choose the session identifiers), arriving in the same instant, 1 ms or 1 s apart, on one node or across two (records gossiped in between): every connection but the last is ended at its next keep-alive exchange, the last is answered, one session is registered"
+			rep.Floor("paths", int64(len(paths)), rep.Nontrivial)
 		})
 }
